@@ -261,6 +261,72 @@ theorem history_no_end_of_day (cfg : Cfg) : ∀ (calls : List TxCall) (s : Clien
     simp only [List.foldl_cons]
     exact (call_no_end_of_day cfg s c h hn.1).trans (ih _ (connOK_call cfg s c h) hn.2)
 
+/-! ### the client's whole vocabulary, over arbitrary call histories -/
+
+/-- everything the `Feig` client can ever put on the wire. -/
+def ClientVocab (cfg : Cfg) (p : Bytes) : Prop :=
+  p = ackBytes ∨ p ∈ handshakePackets cfg ∨ p = sysInfoCmd ∨ p = setTidCmd cfg ∨ p = initCmd cfg ∨ CleanupCmd cfg p ∨
+  p = readCardCmd cfg ∨ (∃ t, p = reservationCmd cfg t) ∨ (∃ t r f, p = commitCmd cfg t r f)
+
+theorem vocab_of_allowed {cfg : Cfg} {C : Bytes → Prop} (hC : ∀ p, C p → ClientVocab cfg p) :
+    ∀ p, Allowed cfg C p → ClientVocab cfg p := by
+  intro p hp
+  rcases hp with h | h | h
+  · exact hC p h
+  · exact Or.inl h
+  · exact Or.inr (Or.inl h)
+
+theorem vocab_of_exchange {cfg : Cfg} {cmd : Bytes} (hc : ClientVocab cfg cmd) : ∀ p, ExchangeP cfg cmd p → ClientVocab cfg p := by
+  intro p hp
+  rcases hp with h | h | h
+  · rw [h]; exact hc
+  · exact Or.inl h
+  · exact Or.inr (Or.inl h)
+
+/-- one public call (configure / read_card / begin / commit / cancel): well-formedness is kept and only vocabulary is written. -/
+theorem call_writes_vocab (cfg : Cfg) (s : Client × World) (c : ClientCall) (h : ConnOK s.2) :
+    Wrote (ClientVocab cfg) s.2 (runClientCall cfg s c).2 := by
+  cases c with
+  | configure =>
+    refine (wrote_configure cfg s.1 s.2 h).mono (vocab_of_allowed ?_)
+    intro p hp
+    rcases hp with hp | hp | hp | hp
+    · exact Or.inr (Or.inr (Or.inl hp))
+    · exact Or.inr (Or.inr (Or.inr (Or.inl hp)))
+    · exact Or.inr (Or.inr (Or.inr (Or.inr (Or.inl hp))))
+    · exact Or.inr (Or.inr (Or.inr (Or.inr (Or.inr (Or.inl hp)))))
+  | readCard =>
+    exact (wrote_readCard cfg s.2 h).mono (vocab_of_exchange (Or.inr (Or.inr (Or.inr (Or.inr (Or.inr (Or.inr (Or.inl rfl))))))))
+  | begin t =>
+    exact (wrote_beginTx cfg s.1 t s.2 h).mono (vocab_of_exchange (Or.inr (Or.inr (Or.inr (Or.inr (Or.inr (Or.inr (Or.inr (Or.inl ⟨t, rfl⟩)))))))))
+  | commit t f =>
+    refine (wrote_commitTx cfg s.1 t f s.2 h).mono (vocab_of_allowed ?_)
+    intro p hp
+    rcases hp with ⟨r, _, hp⟩ | ⟨_, hp⟩
+    · exact Or.inr (Or.inr (Or.inr (Or.inr (Or.inr (Or.inr (Or.inr (Or.inr ⟨t, r, f, hp⟩)))))))
+    · exact Or.inr (Or.inr (Or.inr (Or.inr (Or.inr (Or.inl hp)))))
+  | cancel t =>
+    refine (wrote_cancelTx cfg s.1 t s.2 h).mono (vocab_of_allowed ?_)
+    intro p hp
+    rcases hp with ⟨r, _, hp⟩ | ⟨_, hp⟩
+    · exact Or.inr (Or.inr (Or.inr (Or.inr (Or.inr (Or.inl (Or.inr (Or.inl ⟨r, hp⟩)))))))
+    · exact Or.inr (Or.inr (Or.inr (Or.inr (Or.inr (Or.inl hp)))))
+
+/-- **The client never leaves its vocabulary**: after ANY history of public calls against ANY terminal, on every connection the
+traffic has only grown, and every packet the client added — anywhere — is an acknowledgement, a handshake packet or one of its
+own commands built from its configuration (identity request, set-terminal-id, initialisation, pending query, reversal, end-of-day,
+read-card, a reservation for some token, a partial reversal for some token / receipt / amount). -/
+theorem history_writes_vocab (cfg : Cfg) : ∀ (calls : List ClientCall) (s : Client × World), ConnOK s.2 →
+    Wrote (ClientVocab cfg) s.2 (runClientCalls cfg s calls).2 := by
+  intro calls
+  induction calls with
+  | nil => intro s h; exact Wrote.refl _ _ h
+  | cons c cs ih =>
+    intro s h
+    have h1 := call_writes_vocab cfg s c h
+    simp only [runClientCalls, List.foldl_cons]
+    exact h1.trans (ih (runClientCall cfg s c) h1.ok)
+
 /-- the initial world (no connection yet) is well-formed; so is every world reached by a history. -/
 theorem connOK_initial (w : World) (h : w.conn = none) : ConnOK w := by
   intro c hc; rw [h] at hc; cases hc
